@@ -286,6 +286,49 @@ func decide(c layoutCase) *rp.Fail {
 	if f := check(""); f != nil {
 		return f
 	}
+	// batches: UnmarshalArray / UnmarshalArrayElement decode every element on its own (nothing carried over from the
+	// previous element): [v, zero, v] where zero is the all-zero-payload message of the same layout
+	zero := make([]byte, 64)
+	zero[0], zero[1] = enc[0], enc[1]
+	for _, f := range c.Fields {
+		if f.Kind == "u8fixed" {
+			zero[f.Off] = enc[f.Off]
+		}
+	}
+	wantZero := fv.CanonAll(func() reflect.Value {
+		z := reflect.New(typ)
+		if err := codec.Unmarshal(append([]byte(nil), zero...), z.Interface()); err != nil {
+			return reflect.New(typ).Elem()
+		}
+		return z.Elem()
+	}())
+	arr := reflect.New(reflect.SliceOf(typ))
+	if p := try(func() {
+		err = codec.UnmarshalArray([][]byte{append([]byte(nil), enc...), append([]byte(nil), zero...), append([]byte(nil), enc...)}, arr.Interface())
+	}); p != nil {
+		return rp.Failf("codec.UnmarshalArray/panic", "layout %s: UnmarshalArray panicked: %v", describe(c), p)
+	}
+	if err == nil && arr.Elem().Len() == 3 {
+		first, second, third := fv.CanonAll(arr.Elem().Index(0)), fv.CanonAll(arr.Elem().Index(1)), fv.CanonAll(arr.Elem().Index(2))
+		if d := fv.FirstDiff(first, third); d != "" {
+			return rp.Failf("codec.UnmarshalArray/element-depends-on-neighbours", "layout %s: elements 0 and 2 of a batch [m, zero, m] differ: %s", describe(c), d)
+		}
+		if d := fv.FirstDiff(wantZero, second); d != "" {
+			return rp.Failf("codec.UnmarshalArray/element-depends-on-neighbours", "layout %s: the all-zero message decoded inside a batch [m, zero, m] differs from decoding it alone: %s", describe(c), d)
+		}
+		// pointer fields: nil-ness too
+		for i := 0; i < arr.Elem().Index(1).NumField(); i++ {
+			if f := arr.Elem().Index(1).Field(i); f.Kind() == reflect.Ptr {
+				alone := reflect.New(typ)
+				codec.Unmarshal(append([]byte(nil), zero...), alone.Interface())
+				if f.IsNil() != alone.Elem().Field(i).IsNil() {
+					return rp.Failf("codec.UnmarshalArray/element-depends-on-neighbours", "layout %s: pointer field %d of the all-zero message is nil=%v when decoded alone but nil=%v inside a batch after another message", describe(c), i, alone.Elem().Field(i).IsNil(), f.IsNil())
+				}
+			}
+		}
+	} else if err != nil {
+		return rp.Failf("codec.UnmarshalArray/error", "layout %s: UnmarshalArray of [m, zero, m] failed: %v", describe(c), err)
+	}
 	// wrong function code / wrong fixed value must be rejected
 	site = "codec.Unmarshal"
 	bad := append([]byte(nil), enc...)
